@@ -526,6 +526,8 @@ func (x *runner) step(o op) {
 		x.r.Emit(rec.Ev{"op": "inject", "what": "rpc", "from": o.From, "to": o.To, "on": o.On})
 	case "wait":
 		time.Sleep(time.Duration(o.Ms) * time.Millisecond)
+	case "settle":
+		x.settle()
 	case "quiesce":
 		if x.settle() {
 			x.probe()
